@@ -202,7 +202,7 @@ func (f *Func) redefineInputs(opts ...Arg) (reflect.Type, error) {
 			// The name is given by the tag. A name set through a tag
 			// doesn't have to be usable as the name of a field.
 			sf = append(sf, reflect.StructField{
-				Name: fmt.Sprintf("V__Name_%d", len(sf)),
+				Name: namedFieldName(v.Name, len(sf)),
 				Type: v.Type,
 				Tag:  reflect.StructTag(fmt.Sprintf("argmapper:%q", v.Name)),
 			})
